@@ -12,16 +12,32 @@ def run(chk, st, tier):
     if not runner:
         return
     files = R.make_files(chk, runner, shapes, rng, 42 if tier == "quick" else 400, name="C08-files")
+    # large pages: 4096 int64/float64 values per page = exact multiples of the 32 KiB deflate window, 2 pages, every codec
+    fn = next((s for s in shapes if s.name == "flatnum"), None)
+    if fn:
+        from . import shapes as S
+        big = [Fm.Workload(fn, codec, 4096, ["G 2 I%d I%d" % (1000 + i % 97, 4607182418800017408 + (i % 5)) for i in range(8192)] + ["W"], "large-pages") for codec in (2, 1, 0)]
+        lines_b = Fm.shape_lines(shapes) + [w.line("b%d" % i) for i, w in enumerate(big)]
+        impl_b, _, _, _ = C.run_cases(lines_b, "C08-big", impl_cmd=[runner])
+        for i, w in enumerate(big):
+            pw = Fm.parse_write(impl_b.get("b%d" % i))
+            if pw and "1" not in pw[0]:
+                files.append((w, b"".join(pw[1])))
     modes = ["chunk:%d" % k for k in (1, 2, 3, 4, 5, 6, 7, 8, 9, 64)] + ["eof", "eofchunk:1", "eofchunk:7"]
     cases = []
+    impl_only = set()     # the list-based model needs minutes per fragmented read of a 130 KB file: those are compared with the unfragmented read only
     for i, (w, f) in enumerate(files):
         cases.append(("p%d" % i, w.shape, f, "plain"))
         ms = modes + ["rand:%d" % rng.randrange(1 << 30) for _ in range(3)]
-        if tier == "quick":
+        if w.tag == "large-pages":
+            ms = ["chunk:1", "chunk:3", "chunk:7", "chunk:4096", "eofchunk:5", "rand:%d" % rng.randrange(1 << 30)]
+        elif tier == "quick":
             ms = rng.sample(modes, 5) + ["chunk:1", "eofchunk:1", "rand:%d" % rng.randrange(1 << 30)]
         for j, m in enumerate(ms):
             cases.append(("m%d_%d" % (i, j), w.shape, f, m))
-    impl, model, e1, e2 = R.run_reads(runner, shapes, cases, "C08")
+            if w.tag == "large-pages" and m != "chunk:4096":
+                impl_only.add("m%d_%d" % (i, j))
+    impl, model, e1, e2 = R.run_reads(runner, shapes, cases, "C08", impl_only=impl_only)
     if e1[0] != 0 or e2[0] != 0:
         chk.broke("correspondence:C08", "harness rc=%s %s / driver rc=%s %s" % (e1[0], e1[1], e2[0], e2[1]))
     base = {}
@@ -29,7 +45,7 @@ def run(chk, st, tier):
     dist = {}
     for ident, sh, f, m in cases:
         a, b = Fm.strip_read(impl.get(ident)), model.get(ident)
-        if a != b:
+        if a != b and ident not in impl_only:
             mism += 1
             if mism <= 3:
                 chk.broke("correspondence:C08", "read of a %d-byte %s file in mode %s: implementation %s... model %s..." % (len(f), sh.name, m, (a or "")[:70], (b or "")[:70]))
@@ -50,6 +66,7 @@ def run(chk, st, tier):
     chk.coverage["input_distribution"] = dist
     if cases:
         chk.sample({"file": files[0][0].describe(), "mode": cases[1][3], "implementation": (impl.get(cases[1][0]) or "")[:100]})
-    chk.coverage["rule"] = ("portfolio files (random histories, 3 codecs, page sizes 1,2,1000) read by the real generated reader behind an io.ReadSeeker that returns at most k bytes per Read (k=1..9,64), random short reads (seeded), "
+    chk.coverage["rule"] = ("portfolio files (random histories, 3 codecs, page sizes 1,2,1000; plus one 8192-record two-page file per codec whose pages are exact multiples of 32 KiB, model compared on the unfragmented and 4096-byte reads only) read by the real generated reader behind an io.ReadSeeker that returns at most k bytes per Read (k=1..9,64), random short reads (seeded), "
                             "and data together with io.EOF on the last read; the outcome (rows, Next count, error, records) must equal the unfragmented outcome and the model's. distinct = distinct (file, mode).")
     chk.coverage["explanation"] = "read_frag_indep (coq/props/C08.v): the reader model's outcome is independent of the fragmentation schedule; census: no raw Read on the source in the anchored files."
+    chk.assumptions += ['thrift transport reads byte-wise / through ReadFull (library behaviour, not modelled); census obligation C08_census_no_raw_source_read ties m_read_full to the source']
